@@ -188,6 +188,7 @@ func (x *Exec) seqUpdateFacts(nv, old, i, v Term) Term {
 	q := fmt.Sprintf("q!%d", x.W.nfresh)
 	qi := T(q, SInt)
 	x.W.Facts = append(x.W.Facts, fmt.Sprintf("(forall ((%s Int)) (! (=> (not (= %s %s)) (= %s %s)) :pattern (%s)))", q, q, i.S, x.W.SeqAt(c, qi).S, x.W.SeqAt(old, qi).S, x.W.SeqAt(c, qi).S))
+	x.prefixFacts(c, old, i)
 	return c
 }
 
@@ -798,6 +799,18 @@ func (x *Exec) assign(l ast.Expr, v Term, env *Env) {
 		x.assign(l.X, v, env)
 	case *ast.SelectorExpr:
 		if sel, ok := info.Selections[l]; ok && sel.Kind() == types.FieldVal {
+			// s[i].f = v : folds over s that never look at field f are unaffected (for every prefix length)
+			if ix, isIx := ast.Unparen(l.X).(*ast.IndexExpr); isIx && !x.termMode {
+				if _, isSlice := derefType(info.TypeOf(ix.X)).Underlying().(*types.Slice); isSlice {
+					oldSeq := x.eval(ix.X, env)
+					defer func() {
+						newSeq := x.eval(ix.X, env)
+						if newSeq.S != oldSeq.S {
+							x.fieldFrameFacts(newSeq, oldSeq, l.Sel.Name)
+						}
+					}()
+				}
+			}
 			cur := x.eval(l.X, env)
 			// walk embedded path
 			nv, ok := x.setFieldPath(cur, derefType(info.TypeOf(l.X)), sel.Index(), v)
